@@ -30,12 +30,12 @@ def run(tier, seed):
     # depth 3 with mode changes, copies onto existing entries, links - every step judged from the previous step's post-states;
     # a history ends with the step that leaves the domain (a link that no longer resolves to an existing non-link entry)
     grid(out, "hist", tier, ["--hist", "2400" if tier == "thorough" else "240", "--len", "60", "--seed", str(seed)], nworkers=8, groups_per_chunk=30 if tier == "thorough" else 10)
-    if tier == "thorough":
-        grid(out, "nobody", tier, ["--as-nobody", "--stride", "3"])
+    # "for any effective uid": the grid again as an unprivileged user (permission checks apply on the real filesystem)
+    grid(out, "nobody", tier, ["--as-nobody", "--stride", "3" if tier == "thorough" else "31"])
     out.finish(dict(rule="every tree of names {a,b} x depth 2 x data {empty,x} with <= 1 link that resolves to an existing non-link entry (361 + 1630 trees; quick: every 5th) "
                          "materialised with std::fs in a tmpfs sandbox and on a fresh Memfs, x ~380 calls (every mutating / querying method x every path or ordered pair, arguments not "
                          "passing through a link); results and observed post-trees compared by TLC; + %s seeded histories of <= 60 calls run on both backends side by side over names {a,b,ab,e-acute} x depth 3 "
-                         "(every step judged from the previous step's post-states; a history ends with the step that leaves the domain); umask 022; euid 0 (thorough: also uid 65534)"
+                         "(every step judged from the previous step's post-states; a history ends with the step that leaves the domain); umask 022; euid 0 and uid 65534"
                          % ("2400" if tier == "thorough" else "240")))
 
 
